@@ -4,6 +4,9 @@
 (*                   native recipient and identity strings of a seed-chosen  *)
 (*                   key by every character of SubChars (charset, other      *)
 (*                   printable ASCII, controls, case-folding confusables).   *)
+(*  Mode "insert":   every single insertion, at every position including   *)
+(*                   before the first and after the last character, of every *)
+(*                   character of InsChars into the same two strings.        *)
 (*  Mode "variants": valid-checksum strings that differ semantically: wrong  *)
 (*                   HRP, wrong case, payload of 0/31/33 bytes, non-zero     *)
 (*                   padding bits, a surplus group, plugin names over a      *)
@@ -13,7 +16,7 @@
 (* the OneSpelling theorem.                                                  *)
 EXTENDS Bech32, TLC, Json, IOUtils
 
-CONSTANTS Mode, Seed, NShards, SubChars, NameAlphabet, MaxName
+CONSTANTS Mode, Seed, NShards, SubChars, NameAlphabet, MaxName, InsChars
 
 Key == [i \in 1..32 |-> ((i * 53) + (Seed * 97) + ((i * i) % 11)) % 256]
 RStr == RecipientString(Key)
@@ -26,6 +29,13 @@ vars == <<shard, c>>
 SubstFor(k, str, sh) == {[class |-> "subst", kind |-> k, a |-> p, b |-> ch] :
                            p \in {q \in 1..Len(str) : q % NShards = sh - 1}, ch \in SubChars}
 SubstCases(sh) == SubstFor("R", RStr, sh) \cup SubstFor("I", IStr, sh)
+\* ------------------------------------------------------------------ insert
+\* one character of InsChars (blanks of every kind, invisible characters, charset characters) put in front of, behind or
+\* anywhere inside a valid string: a is the number of characters that stay in front of it
+InsertFor(k, str, sh) == {[class |-> "insert", kind |-> k, a |-> p, b |-> ch] :
+                           p \in {q \in 0..Len(str) : q % NShards = sh - 1}, ch \in InsChars}
+InsertCases(sh) == InsertFor("R", RStr, sh) \cup InsertFor("I", IStr, sh)
+InsertInto(str, p, ch) == SubSeq(str, 1, p) \o <<ch>> \o SubSeq(str, p + 1, Len(str))
 \* ------------------------------------------------------------------ variants
 PayloadG(n) == ToGroups([i \in 1..n |-> Key[((i - 1) % 32) + 1]])
 G32 == ToGroups(Key)
@@ -102,6 +112,7 @@ PluginInput(d) ==
      ELSE EncodeGroups(PluginIdPrefix \o ToUpper(d.a) \o <<45>>, g)
 
 InputOf(d) == CASE d.class = "subst" -> [(IF d.kind = "R" THEN RStr ELSE IStr) EXCEPT ![d.a] = d.b]
+                [] d.class = "insert" -> InsertInto((IF d.kind = "R" THEN RStr ELSE IStr), d.a, d.b)
                 [] d.class = "plugin" -> PluginInput(d)
                 [] OTHER -> d.input
 
@@ -110,6 +121,7 @@ Cases == IF Mode = "oracle" THEN ndJsonDeserialize(IOEnv.CASES) ELSE <<>>
 OracleCases(sh) == {[class |-> "oracle", kind |-> Cases[i].kind, a |-> i, b |-> 0] : i \in {j \in 1..Len(Cases) : j % NShards = sh - 1}}
 
 CasesOf(sh) == CASE Mode = "subst" -> SubstCases(sh)
+                 [] Mode = "insert" -> InsertCases(sh)
                  [] Mode = "variants" -> IF sh = 1 THEN {VariantList[i] : i \in 1..Len(VariantList)} ELSE {}
                  [] Mode = "plugin" -> PluginCases(sh)
                  [] Mode = "oracle" -> OracleCases(sh)
@@ -134,10 +146,13 @@ Emit == (c.class # "none" /\ Mode # "oracle") =>
               one == r.ok => (Respell(c.kind, r) = s)
           IN one /\ PrintT("CASE " \o ToJson([class |-> (IF c.class = "plugin" THEN "plugin_" \o c.v ELSE c.class), kind |-> c.kind, input |-> s, ok |-> r.ok, key |-> r.key, name |-> r.name,
                                              payload |-> (IF c.class = "plugin" THEN c.b ELSE 0 - 1),
+                                             base |-> (IF c.class = "insert" THEN (IF c.kind = "R" THEN RStr ELSE IStr) ELSE <<>>),
                                              orig |-> (c.class = "subst" /\ s = (IF c.kind = "R" THEN RStr ELSE IStr))]))
 \* a single substitution that changes the string is never accepted (consequence of Dist5, checked directly here)
 SubstRejected == (c.class # "none" /\ Mode = "subst") =>
           LET s == InputOf(c) base == (IF c.kind = "R" THEN RStr ELSE IStr) IN (s # base) => ~ParseOf(c.kind, s).ok
+\* a string with one character more than a valid one is never accepted (32 bytes are exactly 52 groups)
+InsertRejected == (c.class # "none" /\ Mode = "insert") => ~ParseOf(c.kind, InputOf(c)).ok
 Judge == (c.class # "none" /\ Mode = "oracle") =>
           LET rec == Cases[c.a]
               v == IF rec.kind = "ENC"
